@@ -646,15 +646,20 @@ pub fn parse_output_format(
 
 
 	// Error on remaining parameters that were not handled
-	for entry in params
+	for param in &split[1..]
 	{
-		report.error(
-			format!(
-				"unknown format argument `{},{}`",
-				format_id,
-				entry.0));
+		let param_id = param.split(':').next().unwrap();
 
-		return Err(());
+		if params.contains_key(param_id)
+		{
+			report.error(
+				format!(
+					"unknown format argument `{},{}`",
+					format_id,
+					param_id));
+
+			return Err(());
+		}
 	}
 
 
